@@ -163,16 +163,19 @@ def expand_stubs(text):
     return "\n".join(out)
 
 
-def _wanted(path, prop):
+def _wanted(path, prop, only_file=None):
     """Shared files (no @harness annotation) are always included; harness files only for their property, so a
-    harness that stops compiling after a source change cannot break the checks of other properties."""
+    harness that stops compiling after a source change cannot break the checks of other properties. With only_file, just
+    that one harness file (plus the shared files): the fallback when one harness file of a property stops compiling."""
     if prop is None:
         return True
     ids = re.findall(r"^\s*// @harness .*?\bid=(\w+)", open(path).read(), re.M)
+    if only_file is not None and ids:
+        return os.path.abspath(path) == os.path.abspath(only_file)
     return (not ids) or (prop in ids)
 
 
-def make_overlay(dst, extra_tests=None, prop=None):
+def make_overlay(dst, extra_tests=None, prop=None, only_file=None):
     """Copy /repo's *current working tree* sources and append the harness modules.
     extra_tests: {harness_file_path: rust code inserted before that module's closing brace}."""
     os.makedirs(dst, exist_ok=True)
@@ -189,7 +192,7 @@ def make_overlay(dst, extra_tests=None, prop=None):
     appended = {}
     for path in sorted(glob.glob(os.path.join(HARNESS_DIR, "*", "*.rs"))):
         src = os.path.basename(os.path.dirname(path))
-        if src.startswith("_") or not _wanted(path, prop):
+        if src.startswith("_") or not _wanted(path, prop, only_file):
             continue
         target = os.path.join(dst, "src", src + ".rs")
         if not os.path.exists(target):
@@ -402,6 +405,21 @@ def run_all(hs, logdir):
                 cond.wait()
     for t in threads:
         t.join()
+    # Fallback: one harness file that no longer compiles (e.g. it reads a private field that a refactor renamed) must not take the
+    # other harness files of the property down with it: rebuild with one overlay per harness file and re-run what was broken.
+    broken = [h for h in hs if h.result and h.result.get("verdict") == "BROKEN" and "compile error" in (h.result.get("why") or "")]
+    files = sorted(set(h.hfile for h in hs))
+    if broken and len(files) > 1:
+        say("  compile error in the combined overlay: retrying with one overlay per harness file (%d files)" % len(files))
+        for k, hf in enumerate(files):
+            ov = make_overlay(os.path.join(root, "ind_f%d" % k), prop=hs[0].id, only_file=hf)
+            for h in [x for x in broken if x.hfile == hf]:
+                tdir = os.path.join(root, "target_f%d%s" % (k, ("_" + re.sub(r"\W", "_", h.features)) if h.features else ""))
+                try:
+                    h.result = run_harness(h, ov, tdir, logdir, tag=".perfile")
+                except Exception as e:  # noqa
+                    pass
+                say("  [%s] %-34s %-12s %6.1fs  (per-file overlay) %s" % (h.id, h.name, h.result["verdict"], h.result["wall_s"], (h.result.get("why") or "")[:120]))
     return overlay
 
 
